@@ -459,6 +459,60 @@ class ReadOnlyCheck:
                                "version": g["version"], "seed": seed},
                               {"changed": changed, "error": err})
         res.sample({"kind": "rename", "version": g["version"]})
+        # names near the file-name length limit, with other metafiles lying
+        # under every shortened form of the wanted name
+        for L in (100, 245, 246, 247, 248, 249, 250, 251, 254, 255, 256, 300):
+            variant = f"longname:{L}"
+            sb = world.fresh_dir("c18n_")
+            mdir = os.path.join(sb, "meta")
+            os.mkdir(mdir)
+            name = ("n" * L)[:L - 6] + "-disc2"
+            tree = {(): world.content(seed, 3, 5)}
+            ver = g["version"]
+            m = model.ref_v1(name, tree, P0) if ver in ("v1", "foreign") \
+                else (model.ref_v2(name, tree, P0, 16384) if ver == "v2"
+                      else model.ref_hybrid(name, tree, P0, 16384))
+            src = os.path.join(mdir, "download(1).torrent")
+            raw = bencode.encode(m)
+            world.write_file(src, raw)
+            for k in range(200, 256):
+                for suffix in (".torrent", ""):
+                    short = name[:k] + suffix
+                    if short != name + ".torrent" and \
+                            len(short.encode()) <= 255 and k < L:
+                        world.write_file(os.path.join(mdir, short),
+                                         b"someone else's file %d" % k)
+            target = os.path.join(mdir, name + ".torrent")
+            before = world.snapshot(sb)
+            err = None
+            try:
+                self.exec_cmd("cli", ["rename", src], mdir)
+            except BaseException as e:  # noqa
+                err = type(e).__name__
+            after = world.snapshot(sb)
+            changed = diff(before, after)
+            res.states += 1
+            res.transitions += 1
+            res.evals += 1
+            res.validated += 1
+            srel, trel = os.path.relpath(src, sb), os.path.relpath(target, sb)
+            prob = None
+            if [c for c in changed if c not in (srel, trel)]:
+                prob = "clobbered-or-changed-existing"
+            elif changed and (srel in after or trel not in after):
+                prob = "name-not-changed"
+            elif changed:
+                with open(target, "rb") as f:
+                    if f.read() != raw:
+                        prob = "bytes-changed"
+            elif not err:
+                prob = "nothing-renamed-and-no-error"
+            res.outcomes[prob or "ok"] += 1
+            if prob:
+                res.violation(f"C18|rename|{prob}|longname",
+                              {"kind": "rename", "variant": variant,
+                               "version": g["version"], "seed": seed},
+                              {"changed": changed[:4], "error": err})
 
     def run_group(self, g):
         res = core.Result()
